@@ -57,8 +57,8 @@ c.finish(
         "nested less than 256 deep; %raw% operators are comment lines",
         "inline images inside the guard of inline_rt (ContentSpec.wf_image_full): /W,/H valid, keys are regular bytes "
         "without '#', no nil values, values nested at most 10 deep, data at most 4094 bytes, /L absent or equal to the data "
-        "length, and (without /L) no EOL 'EI' delimiter inside the data (the remaining finding F9); the proof excludes all "
-        "ASCII-filter images, the harness only those whose data starts with white space",
+        "length, and (without /L) no EOL 'EI' delimiter inside the data (the remaining finding F9); with an ASCII filter "
+        "the data must not start with white space (ContentSpec.ascii_data_ok; proof and harness use the same domain)",
         "ASCII-filter (ASCIIHexDecode/ASCII85Decode) inline-image data that itself starts with white space is outside the "
         "domain: ISO 32000 8.9.7 makes white space after ID non-data for these filters, the scanner skips it and the ASCII "
         "decoders ignore it",
